@@ -537,15 +537,22 @@ def run_ctorlist(ctx, p):
         elif ch == 'R':       # the very same object once more (a list may hold one object several times)
             items.append(items[-1])
             model.append(model[-1])
+        elif ch == 'A':       # an own-class value as a bare array (the documented "list of arrays" form)
+            o, v = single(c, pool[k])
+            items.append(np.array(v, copy=True))
+            model.append(v)
         elif ch == 'F':
             items.append(single(d, opool[k])[0])
         elif ch == 'M':
             items.append(from_list(c, [pool[k], pool[k + 3]]))
         else:
             items.append(C.Empty())
-    snap = [[np.array(v, copy=True) for v in it.data] for it in items]
+    snap = [[np.array(v, copy=True) for v in it.data] if not isinstance(it, np.ndarray) else [np.array(it, copy=True)] for it in items]
+    kw = {'check': False} if p.get('nocheck') else {}
+    if kw:
+        sig['check'] = False
     try:
-        x = C(list(items))
+        x = C(list(items), **kw)
         err = None
     except Exception as e:
         x, err = None, e
@@ -581,7 +588,7 @@ def run_ctorlist(ctx, p):
         ctx.judge('errors', err is not None, dict(sig, kind='bad_list_accepted'),
                   lambda: '%s must raise; it returned a %s of length %s holding elements of shape %s' % (
                       what(), type(x).__name__, len(d_) if isinstance(d_, list) else '?', [np.shape(v) for v in d_] if isinstance(d_, list) else d_))
-    same = all(len(it.data) == len(sn) and all(np.array_equal(a, b) for a, b in zip(it.data, sn)) for it, sn in zip(items, snap))
+    same = all((len(it.data) == len(sn) and all(np.array_equal(a, b) for a, b in zip(it.data, sn))) if not isinstance(it, np.ndarray) else np.array_equal(it, sn[0]) for it, sn in zip(items, snap))
     ctx.judge('errors', same, dict(sig, kind='list_items_modified'), lambda: '%s modified the objects in the list' % what())
     ctx.cell('ctorlist', c, pat, d if 'F' in pat else '-')
     ctx.nontrivial('ctorlist', c, d if 'F' in pat else '-', pat)
@@ -714,6 +721,15 @@ def run(ctx):
             i += 1
             if ctx.mine(i):
                 drive(RUNNERS, ctx, 'ctorlist', dict(cls=c, other=OTHER[c], pat=pat, pool=pools[c], opool=pools[OTHER[c]]))
+        # a list that starts with a bare array and goes on with an object of another class / an object holding several values /
+        # an empty object: refused like the all-object lists, with and without value checking (check=False skips the test of
+        # the VALUES, it does not make an object a value)
+        if c in ('SO2', 'SE2', 'SO3', 'SE3', 'Twist2', 'Twist3', 'UnitQuaternion'):
+            for pat in ('AF', 'AM', 'AE', 'AAF', 'AAM', 'AFA'):
+                for nocheck in (False, True):
+                    i += 1
+                    if ctx.mine(i):
+                        drive(RUNNERS, ctx, 'ctorlist', dict(cls=c, other=OTHER[c], pat=pat, pool=pools[c], opool=pools[OTHER[c]], nocheck=nocheck))
     # (b) exhaustive short histories
     ops = OPS()
     maxlen = {c: 2 for c in CLASSES + EXTRA}
